@@ -323,6 +323,7 @@ def struct_unit(uid, secs, what, mutants, extra_def=None, bound_extra="", failin
     add(u, failing=failing)
 
 
+DEPTH_UNWINDSET = {"janet_asm1.0": 1030, "h_asm1.1": 1030}     # the depth-counting loop and the harness loop that links the parent chain
 FIND_ARITY_OVF = ("FINDING asm-arity-overflow (formal UB only): `def->slotcount = !!(flags & VARARG) + def->arity` overflows for :arity 2147483647 with :vararg true: "
                   "(asm '{:arity 2147483647 :vararg true :bytecode [(retn)]}) - the wrapped negative slotcount is then rejected by janet_verify ('invalid assembly (2)'), no "
                   "misbehaviour on the pinned build. Failing obligation janet_asm1.overflow 'arithmetic overflow on signed + in ... + def->arity'.")
@@ -379,12 +380,12 @@ struct_unit("asm.asm1.depth-guard", ["CLOSURES"], ":closures / :defs are",
              M("depth-counts-from-grandparent", "        for (JanetAssembler *p = parent; p != NULL; p = p->parent) depth++;", "        for (JanetAssembler *p = parent->parent; p != NULL; p = p->parent) depth++;", "once the parent chain has")],
             extra_def=["-DAS_DEPTH_GUARD", "-DAS_DEPTH=1024"],
             bound_extra="; the assembler has exactly JANET_RECURSION_GUARD (1024) assemblers above it: the description is refused before any nested definition is assembled",
-            fixed="fixed: /repo f4335f4 - " + FIND_DEPTH, extra={"unwind": None, "unwindset": "DEPTH"})
+            fixed="fixed: /repo f4335f4 - " + FIND_DEPTH, extra={"unwindset": DEPTH_UNWINDSET})
 struct_unit("asm.asm1.depth-guard.below", ["CLOSURES"], ":closures / :defs are",
             [M("depth-guard-too-strict", "        janet_asm_assert(&a, depth < JANET_RECURSION_GUARD, \"recursed too deeply\");", "        janet_asm_assert(&a, depth < JANET_RECURSION_GUARD - 1, \"recursed too deeply\");", "REACH|nested")],
             extra_def=["-DAS_DEPTH_GUARD", "-DAS_DEPTH=1023"],
             bound_extra="; the assembler has exactly JANET_RECURSION_GUARD - 1 (1023) assemblers above it: nested definitions are still assembled (REACH: nested assembly raises / returns)",
-            extra={"unwind": None, "unwindset": "DEPTH"})
+            extra={"unwindset": DEPTH_UNWINDSET})
 
 
 # ------------------------------------------------------------------------------------------------------------------
